@@ -9,6 +9,7 @@ ObjectFactory defaults are checked against a dict-merge model over sequences of 
 """
 import itertools
 import json
+import os
 import shutil
 import tempfile
 import warnings
@@ -314,7 +315,32 @@ def wl_partition(ctx, rng, i):
                 except Exception as e:
                     ctx.violation("navigation-raised", "composite query with attached filter raised %s" % type(e).__name__, dict(c2, exception=repr(e), attached=fdesc(f)))
                 finally:
+                    # navigation calls the composite refuses (contradictory options, an object without an id, an absent object):
+                    # refused or not, they leave the members as they were
+                    some_id = union.ids()[0] if union.ids() else "identity--00000000-0000-4000-8000-000000000000"
+                    for bad_call in (lambda: cds.relationships(some_id, source_only=True, target_only=True), lambda: cds.related_to(some_id, source_only=True, target_only=True),
+                                     lambda: cds.relationships({"type": "identity"}), lambda: cds.related_to({"type": "identity"}), lambda: cds.creator_of({"type": "identity"}),
+                                     lambda: cds.relationships(None), lambda: cds.related_to(None, relationship_type="uses")):
+                        try:
+                            with warnings.catch_warnings():
+                                warnings.simplefilter("ignore")
+                                bad_call()
+                        except Exception:
+                            ctx.count("refused_navigation_calls")
                     cds.filters.remove(to_lib(f))
+                    for m in perm:
+                        try:
+                            with warnings.catch_warnings():
+                                warnings.simplefilter("ignore")
+                                got_m = members[m][1].query([])
+                            ctx.ev()
+                            if set(keys(got_m)) != {key(x) for x in contents[m].items}:
+                                ctx.violation("composite-filter-left-on-member", "after refused navigation calls on a composite with attached filter %s, member %d (%s) queried on its own returns %d of its %d objects" % (
+                                    fdesc(f), m, members[m][0], len(set(keys(got_m))), len(contents[m].items)), dict(c2, attached=fdesc(f), member=m))
+                                break
+                        except Exception as e:
+                            ctx.violation("navigation-raised", "member query after refused navigation raised %s" % type(e).__name__, dict(c2, exception=repr(e)))
+                            break
         # a member with a filter of its own under a composite with another: the member's answers satisfy both, the other members' the
         # composite's -- whatever kind of source the member is
         if nmem >= 1:
@@ -690,7 +716,109 @@ def wl_versionless(ctx, rng, i):
         shutil.rmtree(tmp, ignore_errors=True)
 
 
+def wl_late(ctx, rng, i):
+    """Members that grow while the composite is in use: queries first (also of types whose directory exists but holds nothing, or only
+    objects without versions), then additions through the members' own sinks, then the same questions again -- the answers follow the
+    data, not what was seen on the first visit."""
+    import stix2
+    from stix2 import Filter
+    tmp = tempfile.mkdtemp(prefix="stixmon-c18-")
+    try:
+        fsdir = os.path.join(tmp, "fs")
+        os.makedirs(fsdir)
+        pre = rng.choice(["empty-type-directories", "only-unversioned", "nothing", "one-versioned"])
+        fs = stix2.FileSystemStore(fsdir, allow_custom=True)
+        mem = stix2.MemoryStore(allow_custom=True)
+        ts = lambda k: tsor.format_us(tsor.text_us("2020-01-01T00:00:00Z") + k * 86400 * 10 ** 6, "millisecond", "min")     # noqa: E731
+        ident = {"type": "identity", "spec_version": "2.1", "id": "identity--" + V.uuid_text(rng, 4), "created": ts(0), "modified": ts(0), "name": "who", "identity_class": "individual"}
+        ind = {"type": "indicator", "spec_version": "2.1", "id": "indicator--" + V.uuid_text(rng, 4), "created": ts(0), "modified": ts(1), "name": "ind v1", "pattern": "[file:name = 'a']",
+               "pattern_type": "stix", "pattern_version": "2.1", "valid_from": ts(0), "created_by_ref": ident["id"]}
+        mal = {"type": "malware", "spec_version": "2.1", "id": "malware--" + V.uuid_text(rng, 4), "created": ts(0), "modified": ts(0), "name": "mal", "is_family": False}
+        rel = {"type": "relationship", "spec_version": "2.1", "id": "relationship--" + V.uuid_text(rng, 4), "created": ts(0), "modified": ts(0), "relationship_type": "indicates",
+               "source_ref": ind["id"], "target_ref": mal["id"]}
+        unv = {"type": "x-unregistered", "id": "x-unregistered--" + V.uuid_text(rng, 4), "name": "no versions"}
+        ver = {"type": "x-unregistered", "id": "x-unregistered--" + V.uuid_text(rng, 4), "created": ts(0), "modified": ts(2), "name": "versioned"}
+        held = []
+        if pre == "empty-type-directories":
+            for t in ("indicator", "relationship", "malware", "identity", "x-unregistered"):
+                os.makedirs(os.path.join(fsdir, t))
+                if rng.random() < 0.5:
+                    open(os.path.join(fsdir, t, ".gitkeep"), "w").close()
+        elif pre == "only-unversioned":
+            fs.add(json.loads(json.dumps(unv)))
+            held.append((unv, "fs"))
+            os.makedirs(os.path.join(fsdir, "indicator"), exist_ok=True)
+        elif pre == "one-versioned":
+            fs.add(json.loads(json.dumps(ident)))
+            held.append((ident, "fs"))
+        cds = stix2.CompositeDataSource()
+        members = [fs.source, mem.source]
+        rng.shuffle(members)
+        cds.add_data_sources(members)
+        env = stix2.Environment(source=cds)
+        asker = rng.choice([("composite", cds), ("environment", env), ("filesystem member", fs)])
+
+        def questions(stage):
+            src = asker[1]
+            vis = [j for j, place in held if asker[0] != "filesystem member" or place == "fs"]
+            model_ids = {}
+            for j in vis:
+                model_ids.setdefault(j["id"], []).append(j)
+            with warnings.catch_warnings():
+                warnings.simplefilter("ignore")
+                for j in [ident, ind, mal, rel, unv, ver]:
+                    exp = sorted((x.get("modified") or "") for x in model_ids.get(j["id"], []))
+                    got_all = sorted((norm(x).get("modified") or "") for x in src.all_versions(j["id"]))
+                    g = src.get(j["id"])
+                    ctx.ev(2)
+                    ctx.count("late_lookups")
+                    if got_all != exp:
+                        ctx.violation("answers-lag-behind-additions:all_versions", "%s.all_versions(%s) %s: %s, the members hold %s" % (asker[0], j["id"].split("--")[0], stage, got_all, exp),
+                                      {"asker": asker[0], "stage": stage, "before": pre, "id": j["id"], "got": got_all, "held": exp})
+                    want = exp[-1] if exp else None
+                    gm = None if g is None else (norm(g).get("modified") or "")
+                    if gm != want:
+                        ctx.violation("answers-lag-behind-additions:get", "%s.get(%s) %s: %s, the newest held is %s" % (asker[0], j["id"].split("--")[0], stage, gm, want),
+                                      {"asker": asker[0], "stage": stage, "before": pre, "id": j["id"], "got": gm, "held": exp})
+                for t in ("indicator", "relationship", "x-unregistered"):
+                    expn = len([x for x in vis if x["type"] == t])
+                    gotn = len(src.query([Filter("type", "=", t)]))
+                    ctx.ev()
+                    if gotn != expn:
+                        ctx.violation("answers-lag-behind-additions:query", "%s.query(type=%s) %s: %d objects, the members hold %d" % (asker[0], t, stage, gotn, expn),
+                                      {"asker": asker[0], "stage": stage, "before": pre, "type": t})
+                if True:
+                    exp_rel = sorted(x["id"] for x in vis if x["type"] == "relationship" and ind["id"] in (x["source_ref"], x["target_ref"]))
+                    got_rel = sorted(norm(x)["id"] for x in src.relationships(ind["id"]))
+                    exp_to = sorted({x["target_ref"] for x in vis if x["type"] == "relationship" and x["source_ref"] == ind["id"]} & {x["id"] for x in vis})
+                    got_to = sorted(norm(x)["id"] for x in src.related_to(ind["id"]))
+                    ctx.ev(2)
+                    if got_rel != exp_rel or got_to != exp_to:
+                        ctx.violation("answers-lag-behind-additions:navigation", "%s relationships / related_to of the indicator %s: %s / %s, a scan gives %s / %s" % (asker[0], stage, got_rel, got_to, exp_rel, exp_to),
+                                      {"asker": asker[0], "stage": stage, "before": pre})
+        questions("before the additions")
+        # additions, spread over the members
+        for j in rng.sample([ident, ind, mal, rel, ver], 5):
+            if any(x is j for x, _ in held):
+                continue
+            to_mem = rng.random() < 0.3
+            (mem if to_mem else fs).add(json.loads(json.dumps(j)))
+            held.append((j, "mem" if to_mem else "fs"))
+            if rng.random() < 0.4:
+                questions("between the additions")
+        ind2 = dict(ind, modified=ts(5), name="ind v2")
+        to_mem = rng.random() < 0.3
+        (mem if to_mem else fs).add(json.loads(json.dumps(ind2)))
+        held.append((ind2, "mem" if to_mem else "fs"))
+        questions("after the additions")
+        ctx.nontrivial("late", pre, asker[0], sorted(place for _, place in held))
+        ctx.count("late_histories")
+    finally:
+        shutil.rmtree(tmp, ignore_errors=True)
+
+
 WORKLOADS = [
+    Workload("late-additions", wl_late, quick=48, thorough=1200),
     Workload("version-less-member", wl_versionless, quick=60, thorough=1500),
     Workload("partitions", wl_partition, quick=24, thorough=3000),
     Workload("factory", wl_factory, quick=150, thorough=3000),
